@@ -123,23 +123,52 @@ def run_units(registry, units, cfg, jobs=None):
         return [_run_job((n, None, None)) for n in names]
     mp = multiprocessing.get_context('fork')
     parts = {n: [] for n in names}
-    with mp.Pool(njobs) as pool:
-        pending = []
-        for n in names:
-            sd = getattr(units[n], 'split_depth', None)
-            pending.append(pool.apply_async(_run_job, ((n, None, sd),)))
-        while pending:
-            nxt = []
-            for h in pending:
-                if not h.ready():
-                    nxt.append(h)
-                    continue
-                r = h.get()
-                parts[r['unit']].append(r)
-                sd = getattr(units[r['unit']], 'split_depth', None)
-                for pre in (r.get('frontier') or []):
-                    nxt.append(pool.apply_async(_run_job, ((r['unit'], [pre], len(pre) + sd),)))
-            pending = nxt
-            if pending:
-                time.sleep(0.02)
+    # A worker that dies abruptly (a crash inside the solver library, the OOM killer) must not hang the run: the executor
+    # reports a broken pool; the jobs that were lost are re-submitted to a fresh pool once, and reported as a checker crash
+    # (exit 3, never a verdict) if they are lost again.
+    from concurrent.futures import ProcessPoolExecutor
+    from concurrent.futures.process import BrokenProcessPool
+    todo = [((n, None, getattr(units[n], 'split_depth', None)), 0) for n in names]
+    while todo:
+        lost = []
+        with ProcessPoolExecutor(max_workers=njobs, mp_context=mp) as pool:
+            pending = [(pool.submit(_run_job, job), job, tries) for job, tries in todo]
+            todo = []
+            broken = False
+            while pending:
+                nxt = []
+                for h, job, tries in pending:
+                    if not h.done():
+                        nxt.append((h, job, tries))
+                        continue
+                    try:
+                        r = h.result()
+                    except BrokenProcessPool:
+                        broken = True
+                        lost.append((job, tries + 1))
+                        continue
+                    parts[r['unit']].append(r)
+                    sd = getattr(units[r['unit']], 'split_depth', None)
+                    for pre in (r.get('frontier') or []):
+                        job2 = (r['unit'], [pre], len(pre) + sd)
+                        if broken:
+                            lost.append((job2, 0))
+                        else:
+                            try:
+                                nxt.append((pool.submit(_run_job, job2), job2, 0))
+                            except BrokenProcessPool:
+                                broken = True
+                                lost.append((job2, 0))
+                pending = nxt
+                if pending:
+                    time.sleep(0.02)
+        for job, tries in lost:
+            if tries >= 2:
+                u = units[job[0]]
+                parts[job[0]].append({'unit': job[0], 'kind': u.kind, 'functions': u.functions(), 'obligations': [], 'incomplete': [],
+                                      'crash': 'a worker process died twice while exploring this unit (prefix %r)' % (job[1],),
+                                      'covers': {}, 'files': {}, 'dropped_calls': [], 'assumed_contracts': [], 'solver_seconds': 0.0,
+                                      'wall_s': 0.0, 'paths': 0, 'frontier': None, 'call_sites': []})
+            else:
+                todo.append((job, tries))
     return [_merge(parts[n]) for n in names]
